@@ -23,7 +23,7 @@ reg("C19",
     level="model_checking",
     technique="explicit-state BFS over the real ll_l2cap_sdu_buffer<ll_data_pdu_buffer<..>, .., MTU> placed in an exact-size heap block under ASan: a reference central feeds every sequence of start/continuation/control/LLID-0 PDUs through the radio interface and reassembles what is transmitted; field-wise frame diff (offsetof) of the object against its pre-image, payload non-interference re-run, delivered SDU explained by the fragments sent, bounded-liveness drain on the transmit side, plus the product of every SDU size 0..MTU x ring fill level",
     rule="state = byte image of the whole object + reference central; transition = one real call sequence (radio: allocate_receive_buffer+received; link layer: next_ll_l2cap_received x2 [+free]; L2CAP: allocate+commit; exchange; poll; max_tx_size switch); classes = (event kind, outcome, input class) kinds",
-    bound="MTU in {24,65,100} x max_rx/max_tx in {29,60,251} (+ nRF encrypted layout for 65/29, thorough also 24/60 and 100/60). RX: full alphabet (length field {1,MTU,MTU+1,0xffff} (thorough +0, MTU-1) x body {0,3,(4),L+4,max}; continuation {0,1,10,max,rest}; control; LLID 0; consume) to depth 4 (max 251: 3) and reduced alphabet (7 events) to depth 7 (thorough 9; max 251: 6 / 7). TX: 11 SDU sizes around the fragment boundaries + control PDUs 1/27 + exchange + poll + max_tx_size switch to depth 5 (thorough 7) for max 29 and depth 4 (thorough 5) where max_tx_size can be switched (max != 29), with a 40-exchange drain from every state; product run over every SDU size 0..MTU x 0..3 queued PDUs x 3 ring positions x both max_tx_size settings",
+    bound="MTU in {24,65,100} x max_rx/max_tx in {29,60,251} (+ nRF encrypted layout for 65/29, thorough also 24/60 and 100/60). RX: full alphabet (length field {1,MTU,MTU+1,0xffff} (thorough +0, MTU-1) x body {0,3,(4),L+4,max}; continuation {0,1,10,max,rest}; control; LLID 0; consume) to depth 4 (max 251: 3) and reduced alphabet (8 events: first fragment of the largest SDU, unfragmented SDU, too large start, too short start, continuation max, continuation rest, control, consume) to depth 7 (thorough 9; max 251: 5 / 7; MTU 24 with max 60: 6 / 8). TX: 11 SDU sizes around the fragment boundaries + control PDUs 1/27 + exchange + poll + max_tx_size switch to depth 5 (thorough 7) for max 29 and depth 4 (thorough 5) where max_tx_size can be switched (max != 29), with a 40-exchange drain from every state; product run over every SDU size 0..MTU x 0..3 queued PDUs x 3 ring positions x both max_tx_size settings",
     units=[dict(src="harness/C19_rx.cpp", asan=True, flags=["-I/verif/harness/C18_stub"], variants=_c19_rx_variants),
            dict(src="harness/C19_tx.cpp", asan=True, flags=["-I/verif/harness/C18_stub"], variants=_c19_tx_variants)],
     quick_deadline=40, thorough_deadline=540,
@@ -32,7 +32,7 @@ reg("C19",
         "the radio never delivers a PDU longer than max_rx_size(); PDUs with LLID 0 or length 0 are dropped by ll_data_pdu_buffer before the SDU layer (C15)",
         "free_ll_l2cap_received() is called only after next_ll_l2cap_received() returned something (documented precondition; link_layer::handle_received_data does exactly that)",
         "a reassembled SDU may be the announced-length prefix of start+continuations (surplus bytes of the last fragment may be dropped); what happens to malformed input otherwise (dropped silently) is not judged; loss of well-formed SDUs is not judged (the statement is a safety statement) except through 'handed out twice'",
-        "a start fragment always begins a new SDU (Core spec reading): continuing the old SDU with continuations that follow a later start fragment counts as a wrong SDU",
+        "every start fragment - accepted, too large, too short or handed out unfragmented - ends an incomplete SDU (Core spec reading and what the repaired code does): continuations that follow belong to that start fragment only and are dropped if it was rejected or handed out; completing the old SDU with them counts as a wrong SDU",
         "TX: a fragment must not exceed the largest max_tx_size() in effect since its SDU was committed; control PDUs may overtake fragments that were not yet in the ring (legal interleaving)",
     ],
     design_ref="3/C19")
